@@ -25,6 +25,9 @@ def sh(cmd, cwd=None):
 def main():
     agent, sid, props = sys.argv[1], sys.argv[2], sys.argv[3].split(",")
     out = os.path.join(agent, "_out")
+    sub = sys.argv[4] if len(sys.argv) > 4 else ""
+    if sub:
+        out = os.path.join(agent, "_out", sub)
     wt = "/tmp/seedchk-wt"
     sh(f"git -C /repo worktree remove --force {wt}; rm -rf {wt}; git -C /repo worktree prune")
     rc, o = sh(f"git -C /repo worktree add --detach {wt} HEAD")
@@ -34,6 +37,19 @@ def main():
         # demo files: untracked files of the agent's worktree outside _out
         rc, o = sh("git status --porcelain --untracked-files=all", cwd=agent)
         demos = [l[3:] for l in o.splitlines() if l.startswith("?? ") and not l[3:].startswith("_out/")]
+        if sub:
+            # round 2: the demonstration files are named in meta.json (they live in '_' directories or are env-gated)
+            try:
+                listed = json.load(open(os.path.join(out, "meta.json"))).get("demo_files", [])
+            except Exception:
+                listed = []
+            listed = [d for d in listed if os.path.exists(os.path.join(agent, d))]
+            if listed:
+                demos = listed
+            else:
+                # fall back to the go files stored next to the patch
+                demos = []
+        demos = [d for d in demos if os.path.isfile(os.path.join(agent, d))]
         for d in demos:
             os.makedirs(os.path.dirname(os.path.join(wt, d)) or wt, exist_ok=True)
             shutil.copy(os.path.join(agent, d), os.path.join(wt, d))
